@@ -844,6 +844,16 @@ pub fn judge(s: &Scn, method: &str, o: &Obs) -> Vec<Value> {
     let single = |a: u64, b: u64, v: &mut V| {
         if o.status != 206 {
             v.add("C03", format!("expected 206 of bytes {a}-{}, got {}", b - 1, o.status));
+            // C02: whatever the status is, a 200 must carry the complete entity
+            if o.status == 200 && method == "GET" {
+                if cl != Some(s.len) {
+                    v.add("C02", format!("200 with Content-Length {cl:?} for an entity of {} bytes (not the complete representation)", s.len));
+                }
+                check_contiguous(&frames, 0, s.len, clean_end, v);
+                if !s.faulty && o.calls != vec![(0, s.len)] {
+                    v.add("C02", format!("200 whose body is entity bytes {:?}, not the complete entity", o.calls));
+                }
+            }
             return;
         }
         let cr = get(&o.headers, "content-range").and_then(parse_cr);
